@@ -69,6 +69,12 @@ func C02(p *load.Prog, r *oblig.Run) {
 	c01Writer(p, r)
 	c01Encoder(p, r)
 	c01TagLookup(p, r)
+	// the level, tag, pointer and value a line is attached with are what the reader cuts out of it: the reader's
+	// pattern, group routing and conversions (C01's R01.a) and the kind registry's pass-through of value and pointer (R01.c)
+	r.Rule("R01.a", "the line pattern's groups are routed to level (decimal), pointer (delimiters cut exactly), tag and value unchanged", 400)
+	r.Rule("R01.c", "tag -> specialised kind registry agrees with the tag each kind's constructor hard-wires; value and pointer are passed through", 27)
+	c01Reader(p, r)
+	c01Registry(p, r)
 }
 
 // c02Rules: the decoder-loop rules; C01 (encode/decode round trip) runs them
